@@ -111,4 +111,6 @@ def _lz(mod, fn, rid):
     return run
 
 # optimality presupposes feasibility (VPSC.FEAS) and complete stub chains (targets come from the stub one layer below)
-RULES = [target, weights, round_rule, order, sort_rule, chain_rule, gap_rule, opts_rule, solve_rule, alllayers, _walls, _reset] + vpsc_pack.OPT + vpsc_pack.COST + vpsc_pack.FEAS + [_lz("c04", "stubchain_instance", "C04.STUBCHAIN"), _lz("c04", "stubchain", "C04.STUBCHAIN-ALL-N"), _lz("c03", "layerwidth", "C03.LAYERWIDTH")]
+# each engine starts from a private copy of the defaults and hands the caller's options on: spacing and bounds set on one
+# engine must not leak into the module defaults / other engines (C04.OPTFLOW)
+RULES = [target, weights, round_rule, order, sort_rule, chain_rule, gap_rule, opts_rule, solve_rule, alllayers, _walls, _reset] + vpsc_pack.OPT + vpsc_pack.COST + vpsc_pack.FEAS + [_lz("c04", "stubchain_instance", "C04.STUBCHAIN"), _lz("c04", "stubchain", "C04.STUBCHAIN-ALL-N"), _lz("c03", "layerwidth", "C03.LAYERWIDTH"), _lz("c04", "optflow", "C04.OPTFLOW")]
